@@ -325,25 +325,48 @@ func c17WriteTypestate(p *core.Prog, r *core.Report) {
 	for _, w := range wps {
 		r.Check(!pre[w], rule, name, "StartWrite<WritePoints", g.Line(w), "the write enters the epoch before touching the shard")
 	}
-	// the guard loop
+	// the guard loop. It is located on the CFG with same-package helpers and local
+	// closures spliced in (core.Inline), parameters of a spliced helper being followed
+	// back to the argument at the call site: the verdict is the same whether the loop
+	// (or only its body) lives in WriteToShard or was extracted.
+	in := f.Inline(call("tsdb.epochTracker.StartWrite", "tsdb.epochTracker.EndWrite", "tsdb.Shard.WritePoints", "tsdb.guard.Matches", "tsdb.guard.Wait"))
+	ig := in.G
+	argObj := func(e ast.Expr) types.Object {
+		if e == nil {
+			return nil
+		}
+		return core.ObjOf(info, in.ArgOf(e))
+	}
+	recvArgObj := func(c *ast.CallExpr) types.Object {
+		if s, ok := ast.Unparen(c.Fun).(*ast.SelectorExpr); ok {
+			return argObj(s.X)
+		}
+		return nil
+	}
 	var loop *rw3Loop
-	for _, s := range rw3TopLoops(f.Decl.Body) {
-		if rs, ok := s.(*ast.RangeStmt); ok && core.ObjOf(info, rs.X) == guards {
-			loop = rw3FindLoop(g, rs)
+	for _, root := range in.Roots {
+		for _, s := range rw3TopLoops(root) {
+			if rs, ok := s.(*ast.RangeStmt); ok && argObj(rs.X) == guards {
+				if l := rw3FindLoop(ig, rs); l != nil {
+					loop = l
+				}
+			}
 		}
 	}
-	if !r.Check(loop != nil && loop.Val != nil, rule, name, "guard-loop:absent", f.Pos(), "loop over StartWrite's guards found") {
+	if !r.Check(loop != nil && loop.Val != nil, rule, name, "guard-loop:absent", f.Pos(), "loop over StartWrite's guards found (in the function or in a helper spliced into it)") {
 		return
 	}
-	preLoop := g.ReachFromEntry(func(n *core.Node) bool { return n == loop.Head }, nil)
-	for _, w := range wps {
-		r.Check(!preLoop[w], rule, name, "guards<WritePoints", g.Line(w), "Shard.WritePoints is reached only through the guard loop")
+	il := newC17InlLoop(in, loop)
+	iwps := ig.Select(ig.Calling(call("tsdb.Shard.WritePoints")))
+	preLoop := ig.ReachFromEntry(func(n *core.Node) bool { return n == loop.Head }, nil)
+	for _, w := range iwps {
+		r.Check(!preLoop[w], rule, name, "guards<WritePoints", ig.Line(w), "Shard.WritePoints is reached only through the guard loop")
 	}
 	matches := func(val bool) core.EdgePred {
 		return func(e *core.Edge) bool {
 			return rw3EdgeImplies(e, func(c ast.Expr, v bool) bool {
 				cx, ok := c.(*ast.CallExpr)
-				return ok && v == val && call("tsdb.guard.Matches")(info, cx) && rw3RecvObj(info, cx) == loop.Val && len(cx.Args) == 1 && core.ObjOf(info, cx.Args[0]) == ptsParam
+				return ok && v == val && call("tsdb.guard.Matches")(info, cx) && recvArgObj(cx) == loop.Val && len(cx.Args) == 1 && argObj(cx.Args[0]) == ptsParam
 			})
 		}
 	}
@@ -351,24 +374,127 @@ func c17WriteTypestate(p *core.Prog, r *core.Report) {
 		if n.N == nil {
 			return false
 		}
+		if _, isDefer := n.N.(*ast.DeferStmt); isDefer {
+			return false
+		}
 		for _, c := range core.CallsIn(info, n.N, call("tsdb.guard.Wait"), core.WalkOpts{}) {
-			if rw3RecvObj(info, c) == loop.Val {
+			if recvArgObj(c) == loop.Val {
 				return true
 			}
 		}
 		return false
 	}
-	gw := g.Select(isGWait)
+	gw := ig.Select(isGWait)
 	r.Check(len(gw) >= 1, rule, name, "guard.Wait:absent", p.Pos(loop.Stmt.Pos()), "the write waits on matching guards")
-	if esc := loop.Escapes(g, isGWait, matches(false)); len(esc) == 0 {
+	if esc := il.Escapes(isGWait, matches(false)); len(esc) == 0 {
 		r.Ok(rule, name+":matching-guard-waited", p.Pos(loop.Stmt.Pos()), "every guard is waited on unless guard.Matches(points) is false")
 	} else {
-		r.Bad(rule, name, "guard-skipped", rw3EscapeWhere(g, loop, isGWait, matches(false)), "a guard can be passed without Wait although Matches(points) was not false")
+		r.Bad(rule, name, "guard-skipped", ig.Line(esc[0]), "a guard can be passed without Wait although Matches(points) was not false")
 	}
-	noMatch := g.Reach([]*core.Node{loop.Entry}, func(n *core.Node) bool { return !loop.In(n) }, matches(true))
+	noMatch := ig.Reach([]*core.Node{il.entry}, func(n *core.Node) bool { return !il.In(n) }, matches(true))
 	for _, w := range gw {
-		r.Check(!noMatch[w], rule, name, "wait-without-match", g.Line(w), "guard.Wait is reached only when guard.Matches(points) is true (non-conflicting writes are not blocked)")
+		r.Check(!noMatch[w], rule, name, "wait-without-match", ig.Line(w), "guard.Wait is reached only when guard.Matches(points) is true (non-conflicting writes are not blocked)")
 	}
+}
+
+// c17InlLoop is a loop located in an inlined graph: a node belongs to an iteration
+// when it lies in the loop body or in the body of a helper / closure spliced in at
+// a call that itself belongs to an iteration.
+type c17InlLoop struct {
+	in    *core.Inlined
+	l     *rw3Loop
+	entry *core.Node // first node of an iteration
+}
+
+func c17NodePos(n *core.Node) token.Pos {
+	switch {
+	case n.N != nil:
+		return n.N.Pos()
+	case n.Block != nil && n.Block.Stmt != nil:
+		return n.Block.Stmt.Pos()
+	}
+	return token.NoPos
+}
+
+// newC17InlLoop: when the first statement of the loop body is itself a spliced
+// call, its node stands for the return into the caller; the iteration then starts
+// at the node of the spliced body that is entered from outside that body.
+func newC17InlLoop(in *core.Inlined, l *rw3Loop) *c17InlLoop {
+	il := &c17InlLoop{in: in, l: l, entry: l.Entry}
+	for i := 0; i < 3; i++ {
+		moved := false
+		for _, s := range in.Sites {
+			if s.At != il.entry {
+				continue
+			}
+			inBody := func(n *core.Node) bool {
+				p := c17NodePos(n)
+				return p != token.NoPos && s.Body.Pos() <= p && p < s.Body.End()
+			}
+			for _, x := range in.G.Nodes {
+				if x == s.At || !inBody(x) {
+					continue
+				}
+				for _, e := range x.Pred {
+					if !inBody(e.From) && !moved {
+						il.entry = x
+						moved = true
+					}
+				}
+			}
+		}
+		if !moved {
+			break
+		}
+	}
+	return il
+}
+
+func (il *c17InlLoop) In(n *core.Node) bool {
+	if il.l.In(n) {
+		return true
+	}
+	pos := c17NodePos(n)
+	if pos == token.NoPos {
+		return false
+	}
+	for i := 0; i < 3; i++ {
+		moved := false
+		for _, s := range il.in.Sites {
+			if s.Body.Pos() <= pos && pos < s.Body.End() && !(s.Body.Pos() <= s.Call.Pos() && s.Call.Pos() < s.Body.End()) {
+				pos = s.Call.Pos()
+				moved = true
+				break
+			}
+		}
+		if !moved {
+			return false
+		}
+		if il.l.Body.Pos() <= pos && pos < il.l.Body.End() {
+			return true
+		}
+	}
+	return false
+}
+
+// Escapes: see rw3Loop.Escapes; the first escaping nodes are returned.
+func (il *c17InlLoop) Escapes(sink core.NodePred, exempt core.EdgePred) []*core.Node {
+	var out []*core.Node
+	seen := map[*core.Node]bool{}
+	il.in.G.Reach([]*core.Node{il.entry}, func(n *core.Node) bool {
+		if sink != nil && sink(n) {
+			return true
+		}
+		if !il.In(n) {
+			if !seen[n] {
+				seen[n] = true
+				out = append(out, n)
+			}
+			return true
+		}
+		return false
+	}, exempt)
+	return out
 }
 
 // ---- (3) epoch tracker / guard internals
